@@ -84,6 +84,12 @@ Definition step (st : rstate) (op : list tok) : rstate * list tok :=
     else if name =? "drain_check" then
       let '(c2, s2, ms) := drain_rounds (decodable_of (rbad st)) 64 c s [] in
       (mkr c2 s2 (rbad st), flat_map res_msg_toks ms ++ [TS "st"] ++ st_toks c2)
+    else if name =? "bb_worker" then
+      (* black-box run of a real worker: the specification is "all n responses,
+         in order"; nothing of the model is involved *)
+      match args with
+      | [TN _; TN _; TN n; TN _] => (st, [TN n; TS "inorder"])
+      | _ => bad end
     else if name =? "sndbuf" then (st, [])
     else if name =? "writable_p" then
       (* back-pressure variant: the peer does not read; the number of bytes the
